@@ -109,11 +109,17 @@ theorem dblink_roundtrip (f : Fields) (p : Bytes × Bytes) (ps : List (Bytes × 
   have hn := fun r s => fieldName_ok (bs "DBLINK") 12 r s (by decide)
   have hs : sp (12 - (bs "DBLINK").length) = sp 6 := by decide
   rw [hs] at hn
-  have hlen : ps.length < (dblinkMoreText ps ++ rest).length + 1 := by
+  have hlen : ps.length < (dblinkMoreText ps).length + rest.length + 1 := by
     have := dblinkMoreText_length_ge ps
-    simp only [List.length_append]; omega
-  have hm := fun g s => dblinkMore_ok ps rest s g _ (fun q hq => hps q (by simp [hq])) hrest hlen
-  gsimp [dblinkField, hn, line_ok _ _ _ h1, dblinkPair_ok _ _ h2 h3, hm, dictSetAll]
+    omega
+  have hm := fun g s => dblinkMore_ok ps rest s g ((dblinkMoreText ps).length + rest.length + 1)
+    (fun q hq => hps q (by simp [hq])) hrest hlen
+  have hline : ∀ s, line ⟨p.1 ++ 58 :: 32 :: (p.2 ++ 10 :: (dblinkMoreText ps ++ rest)), s⟩ =
+      (.ok (p.1 ++ 58 :: 32 :: p.2), ⟨dblinkMoreText ps ++ rest, s⟩) := by
+    intro s
+    have := line_ok (p.1 ++ 58 :: 32 :: p.2) (dblinkMoreText ps ++ rest) s h1
+    simpa [List.append_assoc] using this
+  gsimp [dblinkField, hn, hline, dblinkPair_ok _ _ h2 h3, hm, dictSetAll]
 
 /-- keys that are pairwise distinct -/
 def distinctKeys : List (Bytes × Bytes) → Bool
@@ -182,9 +188,10 @@ theorem contig_roundtrip (f g : Fields) (rest : Bytes) (stk : List Bytes) (h : c
   have hs : sp (12 - (bs "CONTIG").length) = sp 6 := by decide
   rw [hs] at hn
   have hi1 := fun X s => int_natDigits a (bs ".." ++ X) s (by simp [bs, List.dropWhile, isDigit]) (by omega)
-  have hi2 := fun X s => int_natDigits b ([41] ++ X) s (by simp [List.dropWhile, isDigit]) (by omega)
+  have hi2 := fun X s => int_natDigits b (41 :: X) s (by simp [List.dropWhile, isDigit]) (by omega)
+  have hl41 : ∀ X s, lit [41] ⟨41 :: X, s⟩ = (.ok (), ⟨X, s⟩) := fun X s => lit_ok [41] X s
   have hu := fun r s => untilColon_ok g.contigAcc r s hcol
   have e1 : ((a : Int) - 1) = g.contigHead := by omega
-  gsimp [contigField, hn, lit_ok, hu, hi1, hi2, e1, hb]
+  gsimp [contigField, hn, lit_ok, hu, hi1, hi2, hl41, e1, hb]
 
 end Gts.GenBank
